@@ -513,6 +513,8 @@ NORMALISE_DOCS = [
     '#let x = ((a + b))\n', '#let x = (((a, b)))\n', '#if ((a)) { b }\n', '#while (((a))) { b }\n', '#for x in ((y)) { z }\n', '#(((a)) + ((b)))\n', '#(k: ((v)))\n', '#((a,), ((b),))\n',
     '#let f = x => ((x))\n', '#let f = ((x)) => x\n', '#f(((x) => x))\n', '#show: ((it)) => it\n', '#set text(((red)))\n', '#f((([a])))\n', '#f((({ a })))\n', '#f(((a))[b])\n' if False else '#f(((a)))[b]\n',
     '#f(a,)\n', '#f(a,b,)\n', '#(a,b,)\n', '#(a: 1,)\n', '#let f(a,) = 1\n', '#f(a;)\n' if False else '#{a;}\n', '#{a;;b}\n', '#f( (a) )\n', '#f(\n(\n(a)))\n', '#f(((a\n+ b)))\n', '$ f(((a))) $\n', '$ ((a)) $\n',
+    '#{a      .b      .c(dddddddddd, eeeeeeeeee)}\n', '#{\n  let result = some_module\n                  .sub_module\n                  .function_name(argument_one, argument_two, argument_three, argument_four)\n}\n',
+    '#{aaaa   .bbbb   .cccc(1, 2)   .dddd}\n', '#f(aaaaaaaa ,   bbbbbbbb    ,cccccccc)\n', '#let x = aaaaaaaa    +    bbbbbbbb    +    cccccccc\n', '#(aaaaaaaa:    1,    bbbbbbbb:   2)\n',
     '#a .b\n', '#a. b\n', '#a .b ()\n', '#f (a)\n' if False else '#(f) (a)\n', '#(a) .b\n', '#a.b .c (d)\n',
 ]
 MISC_DOCS = [
